@@ -223,7 +223,7 @@ def ffo(op, a, p, Rm):
     mo = lambda v: v % p * Rm % p
     if op in ('add', 'sub', 'mul', 'div'):
         x = a[1]
-        y = a[1] if a[0] >= 3 else a[2]
+        y = a[1] if a[0] in (3, 4) else a[2]
         xv, yv = un(x), un(y)
         r = {'add': xv + yv, 'sub': xv - yv, 'mul': xv * yv, 'div': xv * (inv(yv, p) if yv else 0)}[op]
         return str(mo(r))
@@ -384,7 +384,7 @@ def oracle(line):
             return 'true' if 0 <= a[0] < Q else 'false'
         if op == 'lebytes':
             return 'x' + (abs(a[0]) % 2**256).to_bytes(32, 'little').hex()
-        if op == 'fromle':
+        if op in ('fromle', 'fromledirty'):
             return str(int.from_bytes(a[0], 'little'))
         if op == 'ff':
             if a[1] in ('setstring', 'setinterface', 'string', 'sqrt'):
